@@ -859,7 +859,7 @@ class Assembler:
         def ensure_impl(fi, it):
             nonlocal open_impl
             par = it.parent
-            if par is None or par.kind != "impl":
+            if par is None or par.kind not in ("impl", "trait"):
                 close_impl()
                 return
             if open_impl is not par:
@@ -886,7 +886,7 @@ class Assembler:
                 if fs.strict is not None and self.twins:
                     self.emit_fn(fs, "strict")
                 has_req = any(c[0] == "requires" for c in VS.split_clauses(fs.spec))
-                in_trait_impl = it.parent is not None and it.parent.kind == "impl" and it.parent.impl_trait is not None
+                in_trait_impl = it.parent is not None and ((it.parent.kind == "impl" and it.parent.impl_trait is not None) or it.parent.kind == "trait")
                 if self.canaries and has_req and not fs.nocanary and not in_trait_impl:
                     self.emit_fn(fs, "canary")
             elif e[0] == "bitflags":
